@@ -23,14 +23,22 @@ type SolveResult struct {
 	AllRaw   map[string]string
 	Agree    []string // backends that returned the same definite answer (thorough)
 	QuerySize int
+	Relaxed  bool // model came from a query without background axioms (candidate only)
 }
 
-func (o *Oblig) query(withModel bool) string {
+func (o *Oblig) query(withModel bool) string { return o.queryOpt(withModel, false) }
+
+// queryOpt: relaxed leaves out the benign background axioms (see declAxiom); a "sat"
+// answer to a relaxed query is only a candidate that must be confirmed by replay.
+func (o *Oblig) queryOpt(withModel, relaxed bool) string {
 	vc := o.vc
 	var sb strings.Builder
 	sb.WriteString("(set-option :produce-models true)\n")
 	sb.WriteString("(set-logic ALL)\n")
-	for _, d := range vc.decls {
+	for i, d := range vc.decls {
+		if relaxed && vc.benign[i] {
+			continue
+		}
 		sb.WriteString(d)
 		sb.WriteString("\n")
 	}
@@ -134,11 +142,31 @@ func (s *Solver) Solve(o *Oblig) *SolveResult {
 	s.seq++
 	id := s.seq
 	s.mu.Unlock()
-	q := o.query(true)
+	q := o.queryOpt(true, o.Expect == "sat")
 	file := filepath.Join(s.dir, fmt.Sprintf("q%05d.smt2", id))
 	os.WriteFile(file, []byte(q), 0o644)
 	res := &SolveResult{AllRaw: map[string]string{}, QuerySize: len(q)}
 	start := time.Now()
+	defer func() {
+		// no model: retry without the background axioms to obtain a candidate input
+		if o.Expect == "unsat" && res.Status == "unknown" {
+			rq := o.queryOpt(true, true)
+			rfile := filepath.Join(s.dir, fmt.Sprintf("q%05d_relaxed.smt2", id))
+			os.WriteFile(rfile, []byte(rq), 0o644)
+			for _, sp := range []solverSpec{solvers[0], solvers[2]} {
+				st, raw, _ := runSolver(context.Background(), sp, rfile, 5)
+				if st == "sat" {
+					if m := parseModel(raw, o); len(m) > 0 {
+						res.Model = m
+						res.Relaxed = true
+						res.Raw += "\n[relaxed query without background axioms: sat by " + sp.name + "]\n" + truncate(raw, 2000)
+						break
+					}
+				}
+			}
+			res.TimeS = time.Since(start).Seconds()
+		}
+	}()
 
 	// stage 1: quick single-solver attempt (cheap obligations dominate)
 	if !s.thorough {
